@@ -214,8 +214,14 @@ def api_oracles(ctx, o3):
             rng.shuffle(perm)
             specs.append(perm)
         specs += [0, 3, 11, [0, 1, 2], [2, 2, 0], [5, 1, 3, 1], "1o", "0e + 1o + 2e", "2x1o + 0e", "3o + 1o", o3.Irreps("2e + 2e"), o3.Irreps.spherical_harmonics(4), o3.Irreps.spherical_harmonics(3, -1)]
+        # sorted requests with repetitions and gaps (length may equal the span), runs not starting at 0
+        specs += [[0, 0, 2], [1, 1, 3], [2, 2, 5, 5], [1, 1, 4, 4], "2x1o + 2x4e", "2x0e + 2e", [0, 0], [3, 3], [1, 1, 2], [0, 2], [1, 3, 5], [0, 1, 1],
+                  [1, 2, 3], [2, 3], [4, 5, 6, 7], [0, 1, 3], [2, 4, 4, 5]]
         for _ in range(6 if ctx.tier == "quick" else 40):
             specs.append([rng.randint(0, 11) for _ in range(rng.randint(1, 5))])
+        for _ in range(8 if ctx.tier == "quick" else 60):
+            lo = rng.randint(0, 6)
+            specs.append(sorted(rng.randint(lo, min(11, lo + 4)) for _ in range(rng.randint(2, 5))))
         for spec in specs:
             if isinstance(spec, int):
                 ls = [spec]
@@ -250,6 +256,30 @@ def api_oracles(ctx, o3):
                         got2 = o3.spherical_harmonics(spec, 3.5 * x, True, normalization)
                         if (got2 - got).abs().max() > 1e-11:
                             ctx.violation("spherical_harmonics/normalize-depends-on-radius", {"call": desc}, True)
+        # the module's reported irreps_out describes the layout of what it returns: walking irreps_out block by block gives Y^l of that block
+        for spec in specs:
+            for irreps_in in (None, "1e"):
+                try:
+                    m = o3.SphericalHarmonics(spec, False, "component", irreps_in=irreps_in)
+                except ValueError:
+                    continue      # parity of an Irreps/str request incompatible with this input parity (checked below)
+                out = m(x)
+                ctx.case(f"irreps_out-layout spec={spec!s} irreps_in={irreps_in}", nontrivial=True, sample_every=7)
+                pin = -1 if irreps_in is None else 1
+                off, bad = 0, None
+                if m.irreps_out.dim != out.shape[-1]:
+                    bad = f"irreps_out.dim={m.irreps_out.dim} but the result has {out.shape[-1]} columns"
+                else:
+                    for mul, ir in m.irreps_out:
+                        for _ in range(mul):
+                            blk = out[:, off:off + ir.dim]
+                            off += ir.dim
+                            if ir.l > 11 or ir.p != pin ** ir.l or (blk - full[ir.l]).abs().max() > 1e-11 * (1 + full[ir.l].abs().max()):
+                                bad = bad or f"block announced as {ir} at columns {off - ir.dim}..{off} is not Y^{ir.l} (or has the wrong parity)"
+                if bad:
+                    ctx.violation("SphericalHarmonics/irreps_out-does-not-describe-the-output", {"spec": str(spec), "irreps_in": irreps_in,
+                                  "irreps_out": str(m.irreps_out), "problem": bad, "x": x[:2].tolist()}, True)
+                    break
         # pseudovector input and parity consistency of the module
         for spec, irreps_in, ok in [("1e", "1e", True), ("1o + 2e", None, True), ("1e + 2e", None, True), ("2o", "1o", False), ("1o", "1e", False)]:
             try:
